@@ -5,10 +5,16 @@ int nondet_int(void); unsigned nondet_uint(void); _Bool nondet_bool(void); unsig
 /* operator new: never the may-fail malloc model (allocation failure is out of scope) */
 u8* _Znwm(u64 n) { return (u8*)__CPROVER_allocate(n, 0); }
 u8* _Znam(u64 n) { return (u8*)__CPROVER_allocate(n, 0); }
-void _ZdlPv(u8* p) { if (p) free(p); }
-void _ZdaPv(u8* p) { if (p) free(p); }
-void _ZdlPvm(u8* p, u64 n) { if (p) free(p); }
-void _ZdaPvm(u8* p, u64 n) { if (p) free(p); }
+#ifdef V_C20
+void v_free_hook(u8* p);
+#define FREE_HOOK(p) v_free_hook(p)
+#else
+#define FREE_HOOK(p)
+#endif
+void _ZdlPv(u8* p) { if (p) { FREE_HOOK(p); free(p); } }
+void _ZdaPv(u8* p) { if (p) { FREE_HOOK(p); free(p); } }
+void _ZdlPvm(u8* p, u64 n) { if (p) { FREE_HOOK(p); free(p); } }
+void _ZdaPvm(u8* p, u64 n) { if (p) { FREE_HOOK(p); free(p); } }
 void v_assume(u1 c) { __CPROVER_assume(c); }
 void v_assert(u1 c, u8* msg) { __CPROVER_assert(c, "harness property (uninlined)"); }
 void v_witness(u8* msg) { __CPROVER_assert(0, "WITNESS (uninlined)"); }
@@ -78,3 +84,20 @@ void v_throw_std(u32 kind) { __CPROVER_assume(0); }   /* std::__throw_* without 
 /* glibc's flag read by libstdc++'s shared_ptr refcount dispatch (__is_single_threaded): harnesses are single-threaded; without a
  * definition CBMC treats the extern as nondet and forks on every refcount operation (both branches are equivalent after -loweratomic) */
 u8 __libc_single_threaded = 1;
+/* allocation-order model for relational pointer comparison across distinct heap objects (see v_rt.h).  No loops: the rank lookup is
+ * unrolled so that it needs no unwinding bound; every test is a __CPROVER_same_object of two concrete addresses, folded by symex. */
+#define V_ALLOC_MAX 192
+u8* v_alloc_t0[64]; u8* v_alloc_t1[64]; u8* v_alloc_t2[64]; u32 v_alloc_n;
+void v_alloc_note(u8* p) { u32 n = v_alloc_n; if (n < 64) v_alloc_t0[n] = p; else if (n < 128) v_alloc_t1[n - 64] = p; else if (n < 192) v_alloc_t2[n - 128] = p; if (n < V_ALLOC_MAX) v_alloc_n = n + 1; }
+void v_alloc_order_reset(void) { v_alloc_n = 0; }   /* harness: call at the start of a selector-dispatched case (keeps the counter concrete) */
+#define V_RK1(T, base, k) if ((base) + (k) < n) { if (ra == V_ALLOC_MAX && __CPROVER_same_object(a, T[k])) ra = (base) + (k); if (rb == V_ALLOC_MAX && __CPROVER_same_object(b, T[k])) rb = (base) + (k); }
+#define V_RK4(T, base, k) V_RK1(T, base, k) V_RK1(T, base, (k) + 1) V_RK1(T, base, (k) + 2) V_RK1(T, base, (k) + 3)
+#define V_RK16(T, base, k) V_RK4(T, base, k) V_RK4(T, base, (k) + 4) V_RK4(T, base, (k) + 8) V_RK4(T, base, (k) + 12)
+#define V_RK64(T, base) V_RK16(T, base, 0) V_RK16(T, base, 16) V_RK16(T, base, 32) V_RK16(T, base, 48)
+u1 v_plt(u8* a, u8* b) {
+  if (__CPROVER_same_object(a, b)) return a < b;
+  u32 n = v_alloc_n, ra = V_ALLOC_MAX, rb = V_ALLOC_MAX;
+  V_RK64(v_alloc_t0, 0) V_RK64(v_alloc_t1, 64) V_RK64(v_alloc_t2, 128)
+  if (ra == V_ALLOC_MAX || rb == V_ALLOC_MAX) return a < b;
+  return ra < rb;
+}
